@@ -254,7 +254,7 @@ PROPS = {
         "jobs": [
             {"name": "c19-regress", "pkg": HOOKS, "tests": ["TestVerifC19Regressions"]},
             {"name": "c19-single", "pkg": HOOKS, "tests": ["TestVerifC19SingleCallExhaustive"], "shards": {"quick": 8, "thorough": 8}, "timeout": {"quick": 900, "thorough": 3000}},
-            {"name": "c19-sched2", "pkg": HOOKS, "tests": ["TestVerifC19Schedules2"]},
+            {"name": "c19-sched2", "pkg": HOOKS, "tests": ["TestVerifC19Schedules2", "TestVerifC19ExpireInFlight"]},
             {"name": "c19-sched3", "pkg": HOOKS, "tests": ["TestVerifC19Schedules3"], "checks": {"quick": 3000, "thorough": 100}, "shards": {"quick": 2, "thorough": 12}, "timeout": {"quick": 900, "thorough": 3000}},
         ],
     },
